@@ -12,6 +12,11 @@ From NV Require Import Fasta.Layout Fasta.LayoutProofs Fasta.Indexer Fasta.Index
                        Fasta.Query Fasta.QueryProofs Fasta.Reader Fasta.WriterProofs
                        Fasta.Fastq Fasta.FastqProofs Fasta.Delivery Fasta.DeliveryProofs
                        Fasta.WholeFile.
+From NV Require Import Fasta.Bgzip Fasta.BgzipProofs Fasta.ViaFile Fasta.ViaFileProofs
+                       Fasta.AsyncQuery Fasta.AsyncQueryProofs Fasta.FastqGrammar Fasta.FastqGrammarProofs
+                       Fasta.FastqGrammarDelivery.
+From NV Require Async.Lines.
+From NV Require Bgzf.Vpos Bgzf.ReaderOps Bgzf.FlatRef Bgzf.ReaderOpsProofs Index.TextIndex.
 From NV Require Import Io.Source Io.FastaScan Io.Run.
 Import ListNotations.
 Open Scope N_scope.
@@ -292,6 +297,231 @@ Theorem c11_fasta_read_sequence_any_delivery : forall data sc cap,
 Proof. exact read_sequence_any_delivery. Qed.
 Print Assumptions c11_fasta_read_sequence_any_delivery.
 
+(* ---- BGZF-compressed FASTA with a gzi index ----
+
+   [query_bgzf chk F idx st0 r s e] (NV.Fasta.Bgzip) is IndexedReader::query on
+   fasta::io::IndexedReader<bgzf::io::IndexedReader<_>>: Record::query, then
+   Seek::seek(Start(pos)) = C02's [seek_by_uncompressed_position] (gzi query + Reader::seek) from
+   the reader state st0, then read_sequence_limit over the sequence reader (C12's model) whose
+   inner BufRead is the BGZF reader (C02's fill_buf / consume).  F is the parsed BGZF file (frames
+   with their compressed size and data, C02's NV.Bgzf.ReaderOps.file), bz_text F its uncompressed
+   text.  For EVERY well-formed F (any block layout: boundaries anywhere, empty blocks anywhere,
+   with or without EOF block; wf = every block has >= 1 compressed and <= 65536 data bytes; file
+   shorter than 2^48), every reader state satisfying C02's invariant, every fai record and region
+   whose byte offset the gzi index of the file can express (seeku_ok: <= the text length, and not
+   the very end of a file whose last block is a full 65536-byte one): the query on the compressed
+   file = the query on the uncompressed text.  It never runs out of fuel, never fails in the
+   seek, never panics where the plain query does not. *)
+Theorem c11_bgzf_query_flat : forall F chk st0 s0 r s e,
+  ReaderOpsProofs.wf F -> FlatRef.total_csize F <= Vpos.MAX_COMPRESSED_POSITION ->
+  ReaderOpsProofs.Inv F st0 s0 ->
+  (forall pos, fai_query_gen chk r (match s with Some p => p - 1 | None => 0 end) = Some pos ->
+               ReaderOpsProofs.seeku_ok F pos) ->
+  query_bgzf chk F (ReaderOps.gzi_of F) st0 r s e = ZOk (query_record chk (bz_text F) r s e).
+Proof. intros F chk st0 s0 r s e Hwf Hmax. exact (query_bgzf_flat F Hwf Hmax chk st0 s0 r s e). Qed.
+Print Assumptions c11_bgzf_query_flat.
+
+(* ... hence exact for every record of the index built on the uncompressed text and every region
+   with 1 <= start <= length, start <= end (the offset of an existing base is always expressible),
+   after ANY valid history of calls on the BGZF reader (C02's op language) *)
+Theorem c11_bgzf_query_exact : forall F ops recs err r chk s e,
+  ReaderOpsProofs.wf F -> FlatRef.total_csize F <= Vpos.MAX_COMPRESSED_POSITION ->
+  ReaderOpsProofs.ops_valid F ops ->
+  index_file (bz_text F) = (recs, err) -> In r recs ->
+  exists body, record_lines (bz_text F) r body /\
+    let B := naive_bases body in
+    let st := match s with Some p => p | None => 1 end in
+    let en := match e with Some p => p | None => usize_max end in
+    heads_ok body ->
+    nth (N.to_nat (st - 1)) B 0 <> CR -> nth (N.to_nat (st - 1)) B 0 <> GT ->
+    1 <= st -> st <= f_len r -> st <= en ->
+    query_bgzf chk F (ReaderOps.gzi_of F)
+      (ReaderOps.run_state true F (ReaderOps.gzi_of F) (ReaderOps.init F) ops) r s e
+    = ZOk (QOk (firstn (N.to_nat (en - st + 1)) (skipn (N.to_nat (st - 1)) B))).
+Proof. exact query_bgzf_exact_history. Qed.
+Print Assumptions c11_bgzf_query_exact.
+
+(* the same from any state satisfying C02's refinement invariant *)
+Theorem c11_bgzf_query_exact_inv : forall F st0 s0 recs err r chk s e,
+  ReaderOpsProofs.wf F -> FlatRef.total_csize F <= Vpos.MAX_COMPRESSED_POSITION ->
+  ReaderOpsProofs.Inv F st0 s0 ->
+  index_file (bz_text F) = (recs, err) -> In r recs ->
+  exists body, record_lines (bz_text F) r body /\
+    let B := naive_bases body in
+    let st := match s with Some p => p | None => 1 end in
+    let en := match e with Some p => p | None => usize_max end in
+    heads_ok body ->
+    nth (N.to_nat (st - 1)) B 0 <> CR -> nth (N.to_nat (st - 1)) B 0 <> GT ->
+    1 <= st -> st <= f_len r -> st <= en ->
+    query_bgzf chk F (ReaderOps.gzi_of F) st0 r s e
+    = ZOk (QOk (firstn (N.to_nat (en - st + 1)) (skipn (N.to_nat (st - 1)) B))).
+Proof. exact query_bgzf_exact. Qed.
+Print Assumptions c11_bgzf_query_exact_inv.
+
+(* Indexing the bgzipped file: [index_bgzf F] is C12's model of the whole indexer (index_record
+   loop: read_line, consume_sequence_line, is_last_sequence_line over fill_buf / consume) reading
+   through the BGZF reader from its initial state, so every fill_buf window ends at a block
+   boundary.  For every block layout it returns the index of the uncompressed text - hence
+   (c11_whole_file, c11_fai_offset_correct) the records of the naive parse. *)
+Theorem c11_bgzf_index_flat : forall F,
+  ReaderOpsProofs.wf F -> index_bgzf F = index_file (bz_text F).
+Proof. exact index_bgzf_flat. Qed.
+Print Assumptions c11_bgzf_index_flat.
+
+(* The modelling step that puts C12's scanner on top of C02's reader: the scanner is written over
+   "buffer + inner reader"; here the buffer is the BGZF block window.  After fill_buf returned the
+   window w, consuming k < |w| bytes makes the next fill_buf return the rest of w without
+   touching the stream, and consuming the rest afterwards is consuming all of w at once. *)
+Theorem c11_bgzf_window_rest : forall F st s st1 w k,
+  ReaderOpsProofs.wf F -> ReaderOpsProofs.Inv F st s ->
+  ReaderOps.fill_buf st = (st1, Vpos.Ok w) -> k < ReaderOps.len w ->
+  ReaderOps.fill_buf (ReaderOps.consume st1 k)
+    = (ReaderOps.consume st1 k, Vpos.Ok (skipn (N.to_nat k) w)) /\
+  ReaderOps.consume (ReaderOps.consume st1 k) (ReaderOps.len w - k)
+    = ReaderOps.consume st1 (ReaderOps.len w).
+Proof. intros F st s st1 w k Hwf. exact (bz_window_rest F Hwf st s st1 w k). Qed.
+Print Assumptions c11_bgzf_window_rest.
+
+Theorem c11_bgzf_read_total : forall F st s n,
+  ReaderOpsProofs.wf F -> ReaderOpsProofs.Inv F st s ->
+  exists w st1, ReaderOps.fill_buf st = (st1, Vpos.Ok w) /\
+    bz_read st n = (ROk (firstn n w), ReaderOps.consume st1 (ReaderOps.len (firstn n w))).
+Proof. intros F st s n Hwf. exact (bz_read_total F Hwf st s n). Qed.
+Print Assumptions c11_bgzf_read_total.
+
+(* ---- the index on disk ----
+
+   [write_fai_file] / [read_fai_file] (NV.Fasta.ViaFile) are C17's text model of
+   fai::io::Writer / Reader.  Every record the indexer returns lies inside the file and has a
+   non-zero geometry and a name without whitespace ... *)
+Theorem c11_fai_bounds : forall f recs e r, index_file f = (recs, e) -> In r recs ->
+  f_pos r + f_len r <= len f /\ f_pos r + f_lw r <= len f /\
+  1 <= f_lb r /\ f_lb r <= f_lw r /\
+  f_name r <> [] /\ Forall (fun b => is_ws b = false) (f_name r).
+Proof. exact fai_bounds. Qed.
+Print Assumptions c11_fai_bounds.
+
+(* ... so for files shorter than 2^64 bytes whose record names are valid UTF-8 the index
+   written as a .fai file reads back equal (names that are not UTF-8 do not: C17's finding
+   fai-non-utf8-name) ... *)
+Theorem c11_index_via_file : forall f,
+  len f < 2 ^ 64 -> utf8_names (fst (index_file f)) ->
+  index_via_file f = Some (fst (index_file f)).
+Proof. exact index_via_file_same. Qed.
+Print Assumptions c11_index_via_file.
+
+(* ... and the index built by the indexer, written, read back, answers every region query (name
+   lookup included) with exactly the bases of the naive parse *)
+Theorem c11_via_file_query_exact : forall f recs err name r s e,
+  index_file f = (recs, err) -> len f < 2 ^ 64 -> utf8_names recs ->
+  find_record recs name = Some r ->
+  exists body, record_lines f r body /\
+    let B := naive_bases body in
+    let st := match s with Some p => p | None => 1 end in
+    let en := match e with Some p => p | None => usize_max end in
+    heads_ok body ->
+    nth (N.to_nat (st - 1)) B 0 <> CR -> nth (N.to_nat (st - 1)) B 0 <> GT ->
+    1 <= st -> st <= f_len r -> st <= en ->
+    query_via_file f name s e
+    = VOk (QOk (firstn (N.to_nat (en - st + 1)) (skipn (N.to_nat (st - 1)) B))).
+Proof. exact via_file_query_exact. Qed.
+Print Assumptions c11_via_file_query_exact.
+
+(* ---- the async reader ----
+
+   [async_query chk cap codes f r s] (NV.Fasta.AsyncQuery): Record::query, seek, then C16's model
+   of the async read_sequence loop over tokio's BufReader of capacity cap over a source polled
+   according to codes (Pending / Ready with at most k bytes, in any order).  For every capacity
+   >= 1 and every poll script it returns C12's closed form of the bytes after the seek position. *)
+Theorem c11_async_query_closed : forall chk cap codes f r s, (1 <= cap)%nat ->
+  async_query chk cap codes f r s
+  = match fai_query_gen chk r (match s with Some p => p - 1 | None => 0 end) with
+    | None => (SOk, QErrInvalidInput)
+    | Some pos => (SOk, QOk (seq_spec (seek f pos)))
+    end.
+Proof. exact async_query_closed. Qed.
+Print Assumptions c11_async_query_closed.
+
+(* the sync query with an open end is the async result cut at usize::MAX - start + 1 bases *)
+Theorem c11_async_query_vs_sync : forall chk cap codes f r s, (1 <= cap)%nat ->
+  query_record chk f r s None
+  = match async_query chk cap codes f r s with
+    | (_, QOk b) => QOk (firstn (N.to_nat (usize_max - (match s with Some p => p | None => 1 end) + 1)) b)
+    | (_, x) => x
+    end \/
+  query_record chk f r s None = QPanic.
+Proof. exact async_query_vs_sync. Qed.
+Print Assumptions c11_async_query_vs_sync.
+
+(* exact: the bases from the region start to the end of the record (files shorter than 2^63) *)
+Theorem c11_async_query_exact : forall f recs err r chk s cap codes,
+  index_file f = (recs, err) -> In r recs -> (1 <= cap)%nat -> len f < 2 ^ 63 ->
+  exists body, record_lines f r body /\
+    let B := naive_bases body in
+    let st := match s with Some p => p | None => 1 end in
+    heads_ok body ->
+    nth (N.to_nat (st - 1)) B 0 <> CR -> nth (N.to_nat (st - 1)) B 0 <> GT ->
+    1 <= st -> st <= f_len r ->
+    async_query chk cap codes f r s = (SOk, QOk (skipn (N.to_nat (st - 1)) B)).
+Proof. exact async_query_exact. Qed.
+Print Assumptions c11_async_query_exact.
+
+(* ---- the FASTQ dialect, as a grammar ----
+
+   noodles-fastq reads four-line records only.  [fq_parses f recs] (NV.Fasta.FastqGrammar):
+     file   ::= record*
+     record ::= '@' defline LF seqline LF '+' plusline LF qualline LF
+              | '@' defline LF seqline LF '+' plusline LF qualline      (last record)
+              | '@' defline LF seqline LF '+' plusline                  (last record, empty qualities)
+   with LF-free lines, and [fields_of] cutting name / description / sequence / qualities out of
+   them.  The reader model returns (recs, no error) EXACTLY on the members of the grammar, with
+   EXACTLY the records the grammar assigns. *)
+Theorem c11_fastq_reader_accepts_grammar : forall f recs,
+  read_qfile f = (recs, None) <-> fq_parses f recs.
+Proof. exact reader_accepts_grammar. Qed.
+Print Assumptions c11_fastq_reader_accepts_grammar.
+
+(* the decidable membership test *)
+Theorem c11_fastq_accepts_iff : forall f, fq_accepts f = true <-> snd (read_qfile f) = None.
+Proof. exact accepts_iff. Qed.
+Print Assumptions c11_fastq_accepts_iff.
+
+Theorem c11_fastq_accepts_grammar : forall f, fq_accepts f = true <-> exists recs, fq_parses f recs.
+Proof. exact accepts_grammar. Qed.
+Print Assumptions c11_fastq_accepts_grammar.
+
+(* the grammar is unambiguous *)
+Theorem c11_fastq_parses_functional : forall f r1 r2, fq_parses f r1 -> fq_parses f r2 -> r1 = r2.
+Proof. exact parses_functional. Qed.
+Print Assumptions c11_fastq_parses_functional.
+
+(* outside the grammar the reader reports InvalidData or UnexpectedEof (after the records read so
+   far) - no panic, no other error *)
+Theorem c11_fastq_rejects_with : forall f, fq_accepts f = false ->
+  snd (read_qfile f) = Some QInvalidData \/ snd (read_qfile f) = Some QUnexpectedEof.
+Proof. exact rejects_with. Qed.
+Print Assumptions c11_fastq_rejects_with.
+
+(* the same for the reader as it really runs - C12's model of the fill_buf-driven record reader
+   behind a BufReader of any capacity over any script of short reads / Interrupted, and C16's model
+   of the async reader over any poll script (their closed-form theorems, composed) *)
+Theorem c11_fastq_grammar_any_delivery : forall data sc cap recs, (1 <= cap)%nat ->
+  (fst (run_fastq cap (mkSource data sc)) = (recs, None) <-> fq_parses data recs).
+Proof. exact grammar_any_delivery. Qed.
+Print Assumptions c11_fastq_grammar_any_delivery.
+
+Theorem c11_fastq_grammar_async : forall cap codes data recs, (1 <= cap)%nat ->
+  (fst (Async.Lines.async_fastq_case cap codes data) = (recs, None) <-> fq_parses data recs).
+Proof. exact grammar_async. Qed.
+Print Assumptions c11_fastq_grammar_async.
+
+(* a wrapped (multi-line) record is NOT in the dialect: "@r\nAC\nGT\n+\n!!\n!!\n" *)
+Theorem c11_fastq_multiline_rejected :
+  fq_accepts [64;114;10; 65;67;10; 71;84;10; 43;10; 33;33;10; 33;33;10] = false /\
+  read_qfile [64;114;10; 65;67;10; 71;84;10; 43;10; 33;33;10; 33;33;10] = ([], Some QInvalidData).
+Proof. exact multiline_rejected. Qed.
+Print Assumptions c11_fastq_multiline_rejected.
+
 (* ---- non-vacuity ---- *)
 
 (* ">s d\r\nACGT\r\nACGT\r\nAC\r\n>t\nGG\n": CRLF, short last line, a second record *)
@@ -368,3 +598,40 @@ Proof. vm_compute. reflexivity. Qed.
 Example c11_example_naive_file :
   naive_file ex_file = [([115], [65;67;71;84;65;67;71;84;65;67]); ([116], [71;71])].
 Proof. vm_compute. reflexivity. Qed.
+
+(* BGZF: ">s\nACGT\nAC\n>t\nGG\n" in three data blocks, an empty block in the middle, EOF block *)
+Example c11_example_bgzf_wf :
+  ReaderOpsProofs.wf ex_frames /\ FlatRef.total_csize ex_frames <= Vpos.MAX_COMPRESSED_POSITION.
+Proof. exact ex_frames_wf. Qed.
+
+Example c11_example_bgzf :
+  bz_text ex_frames = [62;115;10; 65;67;71;84;10; 65;67;10; 62;116;10; 71;71;10]
+  /\ index_and_query_bgzf ex_frames (ReaderOps.gzi_of ex_frames) [ReaderOps.SeekU 12; ReaderOps.Read 2]
+       [([115], (Some 3, Some 6)); ([116], (None, None)); ([115], (Some 7, Some 7))]
+     = [ZOk (QOk [71;84;65;67]); ZOk (QOk [71;71]); ZOk QErrInvalidInput].
+Proof. vm_compute. split; reflexivity. Qed.
+
+(* the index through its file: "s\t10\t6\t4\t6\nt\t2\t25\t2\t3\n" *)
+Example c11_example_via_file :
+  write_fai_file (fst (index_file ex_file))
+  = [115;9;49;48;9;54;9;52;9;54;10; 116;9;50;9;50;53;9;50;9;51;10]
+  /\ query_via_file ex_file [115] (Some 4) (Some 9) = VOk (QOk [84;65;67;71;84;65]).
+Proof. vm_compute. split; reflexivity. Qed.
+
+(* async: s:4- of ex_file through capacity 2, polls Pending, Ready(1), Pending, Ready(3) *)
+Example c11_example_async :
+  index_and_async_query 2 [0; 2; 0; 4]%nat ex_file [115] (Some 4) = (SOk, QOk [84;65;67;71;84;65;67]).
+Proof. vm_compute. reflexivity. Qed.
+
+(* FASTQ grammar: "@r0 d\r\nAC\r\n+x\n@+" - CRLF, a description, '@' and '+' as qualities, last
+   quality line unterminated *)
+Example c11_example_fastq_grammar :
+  fq_parses [64;114;48;32;100;13;10; 65;67;13;10; 43;120;10; 64;43]
+            [mkqrec [114;48] [100] [65;67] [64;43]].
+Proof.
+  exact (fq_last_open_qual [114;48;32;100;13] [65;67;13] [120] [64;43]
+           ltac:(intros H; vm_compute in H; intuition discriminate)
+           ltac:(intros H; vm_compute in H; intuition discriminate)
+           ltac:(intros H; vm_compute in H; intuition discriminate)
+           ltac:(intros H; vm_compute in H; intuition discriminate)).
+Qed.
